@@ -213,10 +213,25 @@ Print Assumptions interface_laws_satisfiable.
     THE INTERFACE INSTANTIATED WITH THE REAL PREDICATES (Proofs/Link_C02_C03.v):
     [upoint] = s2_Point with finite coordinates and | |p|^2 - 1 | <= 2^-44 (implied by IsUnit),
     [u_peq] = Go ==, [u_sign] = RobustSign (Model/Pred.v robust_sign), [u_triage] = the translated
-    triageSign, [u_tangent] = the float tangent test of NewEdgeCrosser/crossingSign.
+    triageSign, [u_tangent_raw] = the float tangent test of NewEdgeCrosser/crossingSign exactly as
+    the code computes it.
     The interface laws are discharged from the C02 theorems (H-TRIAGE-DET and H-STABLE-DET are
     closed C02 theorems now); what remains as a premise:
-    [H_TANGENT] (the tangent early exit fires only when the exact criterion says "no crossing"). *)
+    [H_TANGENT]: for a fixed edge AB whose endpoints are not EXACTLY antipodal
+    ([u_antipodal a b = false], b == -a componentwise; such a pair is not a geodesic edge), the
+    tangent early exit fires only when the exact criterion says "no crossing".
+    The crosser theorems carry the same guard on the fixed edge; without it the statement is
+    false ([tangent_exit_unguarded_refuted]). *)
+Theorem tangent_hypothesis_is_the_guarded_statement : H_TANGENT <->
+  (forall a b c d, u_antipodal a b = false -> u_tangent_raw a b c d = true ->
+     shared upoint u_peq a b c d = false /\ four_agree upoint u_sign a b c d = false).
+Proof. exact H_TANGENT_guarded_form. Qed.
+Print Assumptions tangent_hypothesis_is_the_guarded_statement.
+
+Theorem tangent_exit_unguarded_refuted : ~ law_tangent_sound upoint u_peq u_sign u_tangent_raw.
+Proof. exact H_TANGENT_unguarded_refuted. Qed.
+Print Assumptions tangent_exit_unguarded_refuted.
+
 Theorem crossing_symmetric_real : forall a b c d,
   crossing_spec upoint u_peq u_sign b a c d = crossing_spec upoint u_peq u_sign a b c d /\
   crossing_spec upoint u_peq u_sign a b d c = crossing_spec upoint u_peq u_sign a b c d /\
@@ -230,25 +245,25 @@ Theorem maybe_iff_shared_endpoint_real : forall a b c d,
 Proof. exact maybe_iff_shared_endpoint_real_l. Qed.
 Print Assumptions maybe_iff_shared_endpoint_real.
 
-Theorem crossing_sign_exact_real : H_TANGENT -> forall a b c d,
-  crossing_sign upoint u_peq u_sign u_triage u_tangent a b c d =
+Theorem crossing_sign_exact_real : H_TANGENT -> forall a b c d, u_antipodal a b = false ->
+  crossing_sign upoint u_peq u_sign u_triage u_tangent_raw a b c d =
   crossing_spec upoint u_peq u_sign a b c d.
 Proof. exact crossing_sign_exact_real_l. Qed.
 Print Assumptions crossing_sign_exact_real.
 
 Theorem crosser_refines_spec_real : H_TANGENT ->
-  forall (refdir : upoint -> upoint) a b c0 ops,
+  forall (refdir : upoint -> upoint) a b c0 ops, u_antipodal a b = false ->
   map (fun x => (st_c upoint (fst x), snd x))
-      (run upoint u_peq u_sign u_triage u_tangent refdir a b (init upoint c0) ops) =
+      (run upoint u_peq u_sign u_triage u_tangent_raw refdir a b (init upoint c0) ops) =
   spec_run upoint u_peq u_sign refdir a b c0 ops.
 Proof. exact crosser_refines_spec_real_l. Qed.
 Print Assumptions crosser_refines_spec_real.
 
 Theorem crosser_equals_stateless_real : H_TANGENT ->
-  forall (refdir : upoint -> upoint) a b c0 ops,
+  forall (refdir : upoint -> upoint) a b c0 ops, u_antipodal a b = false ->
   map (fun x => (st_c upoint (fst x), snd x))
-      (run upoint u_peq u_sign u_triage u_tangent refdir a b (init upoint c0) ops) =
-  stateless_run upoint u_peq u_sign u_triage u_tangent refdir a b c0 ops.
+      (run upoint u_peq u_sign u_triage u_tangent_raw refdir a b (init upoint c0) ops) =
+  stateless_run upoint u_peq u_sign u_triage u_tangent_raw refdir a b c0 ops.
 Proof. exact crosser_equals_stateless_real_l. Qed.
 Print Assumptions crosser_equals_stateless_real.
 
